@@ -22,7 +22,7 @@ type csvConfig struct {
 }
 
 var csvConfigs = []csvConfig{
-	{",", "\"", ""}, {"\t;", "'\"", ""}, {";|", "\"", ""}, {"‖", "“", ""}, {",", "'`", ""}, {",ш", "\"€", ""},
+	{",", "\"", ""}, {"\t;", "'\"", ""}, {";|", "\"", ""}, {"‖", "“", ""}, {",", "'`", ""}, {",ш", "\"€", ""}, {",;", "\"", ""},
 }
 var csvEols = []string{"\n", "\r", "\r\n", "\n\r"}
 
@@ -71,18 +71,28 @@ func c09Exec(c *mon.Case) {
 			if p := mon.Try(func() {
 				// quotes first, separators last: no configuration call follows that could rebuild the
 				// states behind a separator call that did nothing
-				if len(nq) == len(quotes) {
-					copy(quotes, nq) // edit the caller's buffer in place and hand it over again
+				if i == 0 && css[i].Cfg.Quotes == "\"" {
+					// the default quote is what is wanted: the caller leaves it alone
+					quotes = t.QuoteSymbols()
 				} else {
-					quotes = nq
+					if len(nq) == len(quotes) {
+						copy(quotes, nq) // edit the caller's buffer in place and hand it over again
+					} else {
+						quotes = nq
+					}
+					t.SetQuoteSymbols(quotes)
 				}
-				t.SetQuoteSymbols(quotes)
 				if len(ns) == len(seps) {
 					copy(seps, ns)
+				} else if i == 0 && len(ns) == 2 && ns[0] == ',' {
+					seps = append(t.FieldSeparators(), ns[1]) // get, append one, set
 				} else {
 					seps = ns
 				}
 				t.SetFieldSeparators(seps)
+				if string(t.FieldSeparators()) != css[i].Cfg.Seps || string(t.QuoteSymbols()) != css[i].Cfg.Quotes {
+					panic(fmt.Sprintf("after SetQuoteSymbols(%q) and SetFieldSeparators(%q) the getters return %q and %q", css[i].Cfg.Quotes, css[i].Cfg.Seps, string(t.QuoteSymbols()), string(t.FieldSeparators())))
+				}
 			}); p != nil {
 				c.FailPanic("CSV tokenizer reconfiguration", p)
 				return
@@ -295,7 +305,7 @@ func buildC09(cfg *mon.Config) []*mon.Sub {
 	}
 	recfg := &mon.Sub{
 		Name:  "reconfiguration",
-		Rule:  "one tokenizer is configured, used on a random table, then re-configured for another configuration (the caller edits its separator and quote slices in place when the lengths allow, as a get-modify-set would) and used on a second table; both round trips must hold; " + oracle,
+		Rule:  "one tokenizer is configured, used on a random table, then re-configured for another configuration (the caller edits its separator and quote slices in place when the lengths allow, or appends one separator to the list the getter returned, as a get-modify-set would; the getters must return what was set) and used on a second table; both round trips must hold; " + oracle,
 		Floor: 200,
 		Gen: func(emit func(string)) {
 			r := cfg.Rng("c09-reconfig")
